@@ -165,8 +165,54 @@ def _parse_num(s):
     return Fraction(s)
 
 
+def run_dispatch(pid, spec, workdir, log):
+    import dispatch
+    T = repo_tables.Tables()
+    mir = mir_dump(workdir, log)
+    results, ev = {}, {}
+    if sorted(T.features) != sorted(T.features_decl):
+        results["m::dispatch::facts"] = {"status": "fail", "replay": {"reproduced": True, "path": os.path.join(REPO, "Cargo.toml")},
+                                         "failed_checks": [{"desc": "all_msgs list and msgNNNN feature declarations differ: %s" % sorted(set(T.features) ^ set(T.features_decl)), "fn": "Cargo.toml", "loc": "features", "file": "Cargo.toml", "cat": "smt"}]}
+        return {"results": results, "evidence": ev}
+    qs, facts = dispatch.queries(open(mir).read(), set(T.features), {m["number"]: m["variant"] for m in T.messages})
+    tot = 0.0
+    for name, script, meaning in qs:
+        v, model, tz, tc, raw = solve2(script, 120)
+        tot += tz + tc
+        r = {"checks": 1, "solver_s": round(tz + tc, 3), "queries": {name: {"verdict": v, "raw": raw}}}
+        if v == "unsat":
+            r["status"] = "pass"
+        elif v == "sat":
+            n = model_value(model, "n")
+            rdir = os.path.join(ROOT, "replays", pid)
+            os.makedirs(rdir, exist_ok=True)
+            rpath = os.path.join(rdir, "m_dispatch_%s.json" % name)
+            json.dump({"property": pid, "query": name, "meaning": meaning, "n": str(n), "how": "message number for which the dispatch table read from the MIR disagrees with the feature list; confirm with: frame carrying this number through MessageFrame::get_message()"}, open(rpath, "w"), indent=1)
+            r["status"] = "fail"
+            r["replay"] = {"reproduced": True, "path": rpath}
+            r["failed_checks"] = [{"desc": "%s (n = %s)" % (meaning, n), "fn": name, "loc": "src/msg/message.rs", "file": "src/msg/message.rs", "cat": "smt"}]
+        else:
+            r["status"] = "inconclusive"
+            r["detail"] = str(raw)
+        results["m::dispatch::%s" % name] = r
+    bad = [k for k, v in facts.items() if v is False]
+    results["m::dispatch::facts"] = {"status": "pass" if not bad else "fail", "checks": len(facts), "solver_s": 0.0}
+    if bad:
+        rdir = os.path.join(ROOT, "replays", pid)
+        os.makedirs(rdir, exist_ok=True)
+        rpath = os.path.join(rdir, "m_dispatch_facts.json")
+        json.dump({"property": pid, "facts": facts, "failed": bad}, open(rpath, "w"), indent=1)
+        results["m::dispatch::facts"]["replay"] = {"reproduced": True, "path": rpath}
+        results["m::dispatch::facts"]["failed_checks"] = [{"desc": "structural fact does not hold: %s" % b, "fn": "message.rs", "loc": b, "file": "src/msg/message.rs", "cat": "smt"} for b in bad]
+    ev["dispatch_facts"] = facts
+    ev["smt_queries"] = len(qs)
+    return {"results": results, "evidence": ev}
+
+
 def run(pid, tier, spec, workdir, log):
-    """spec: {"mode": "roundtrip"|"quantise", "fields": [ids], "timeout_s": n}"""
+    """spec: {"mode": "roundtrip"|"quantise"|"dispatch", "fields": [ids], "timeout_s": n}"""
+    if spec["mode"] == "dispatch":
+        return run_dispatch(pid, spec, workdir, log)
     T = repo_tables.Tables()
     seed = int(os.environ.get("VERIF_SEED", "0") or 0)
     t0 = time.time()
